@@ -109,6 +109,24 @@ pub fn ops() -> Vec<Op> {
             let c = gm_sm4::Sm4Cipher::new(&SM4_KEY).expect("key");
             format!("{} {}", hexr(c.decrypt(&[0u8; 15])), hexr(c.decrypt(&[0x11u8; 16])))
         }),
+        ("C02/zero-key-encrypt-first", || hexr(gm_sm4::Sm4Cipher::new(&[0u8; 16]).and_then(|c| c.encrypt(&[0u8; 16])))),
+        ("C02/zero-key-decrypt-first", || hexr(gm_sm4::Sm4Cipher::new(&[0u8; 16]).and_then(|c| c.decrypt(&[0u8; 16])))),
+        ("C02/ff-key-encrypt-first", || hexr(gm_sm4::Sm4Cipher::new(&[0xffu8; 16]).and_then(|c| c.encrypt(&[0xffu8; 16])))),
+        ("C02/two-objects-first", || {
+            let a = gm_sm4::Sm4Cipher::new(&[0u8; 16]).expect("key");
+            let b = gm_sm4::Sm4Cipher::new(&SM4_KEY).expect("key");
+            let a2 = gm_sm4::Sm4Cipher::new(&[0u8; 16]).expect("key");
+            format!("{} {} {} {}", hexr(a.encrypt(&SM4_KEY)), hexr(b.encrypt(&SM4_KEY)), hexr(a2.encrypt(&SM4_KEY)), a == a2)
+        }),
+        ("C07/zero-key-zero-iv-first", || {
+            let mut out = String::new();
+            for mode in [M::Cbc, M::Cfb, M::Ofb, M::Ctr] {
+                let m = gm_sm4::Sm4CipherMode::new(&[0u8; 16], mode).expect("mode");
+                out += &hexr(m.encrypt(&[0u8; 33], &[0u8; 16]));
+                out.push(' ');
+            }
+            out
+        }),
         ("C07/cbc-encrypt", || sm4_mode(M::Cbc, true)),
         ("C07/cbc-decrypt", || sm4_mode(M::Cbc, false)),
         ("C07/cfb-encrypt", || sm4_mode(M::Cfb, true)),
@@ -122,6 +140,7 @@ pub fn ops() -> Vec<Op> {
             let mut z = gm_zuc::ZUC::new(&[0xffu8; 16], &[0xffu8; 16]);
             format!("{:?} {:?}", z.generate_keystream(0), z.generate_keystream(3))
         }),
+        ("C08/zero-key-iv-first", || dbg(gm_zuc::ZUC::new(&[0u8; 16], &[0u8; 16]).generate_keystream(3))),
         ("C18/eea-first", || dbg(gm_zuc::eea::EEA::new(&[0x17u8; 16], 0x66035492, 0xf, 0).encrypt(&[0x6cca78a7, 0x36c29e41, 0xffffffff, 1], 97))),
         ("C18/eia-first", || dbg(gm_zuc::eia::EIA::new(&[0xc9u8; 16], 0xa94059da, 0xa, 1).gen_mac(&[0x983b41d4, 0x7d780c9e, 0x1ad11d7e, 0xb70391b1], 97))),
         ("C03/sign-first", || {
@@ -132,6 +151,11 @@ pub fn ops() -> Vec<Op> {
         ("C03/sign-with-id-first", || {
             let (sk, _) = sm2_keys();
             let (r, _) = sm2api::with_rng(vec![to32(&hb(ANNEX_K))], || sk.sign(Some("ALICE123@YAHOO.COM"), b"m"));
+            dbg(r.map(|x| x.map(hex::encode)))
+        }),
+        ("C03/sign-d=1-k=1-first", || {
+            let sk = gm_sm2::key::Sm2PrivateKey::new(&to32(&BigUint::from(1u32))).expect("d=1");
+            let (r, _) = sm2api::with_rng(vec![to32(&BigUint::from(1u32))], || sk.sign(Some(""), b""));
             dbg(r.map(|x| x.map(hex::encode)))
         }),
         ("C04/verify-valid-first", || {
